@@ -206,9 +206,11 @@ func (x *c19) modPow() {
 	var n int64
 	maxM := int64(r.Pick(64, 160))
 	for m := int64(2); m < maxM; m++ {
-		for b := int64(0); b < m; b++ {
+		// every representative of the base in [-m, 2m): the result is the residue in [0, m) whatever the sign of base and exponent
+		for bb := -m; bb < 2*m; bb++ {
+			b := ((bb % m) + m) % m
 			for y := int64(-20); y <= 20; y++ {
-				got, err := verifhooks.ModPow(bi(b), bi(y), bi(m))
+				got, err := verifhooks.ModPow(bi(bb), bi(y), bi(m))
 				n++
 				inv := new(big.Int).ModInverse(bi(b), bi(m))
 				if y < 0 && inv == nil {
@@ -234,12 +236,50 @@ func (x *c19) modPow() {
 					want = want * base % m
 				}
 				if got.Cmp(bi(want)) != 0 {
-					x.fail("ModPow", fmt.Sprintf("%d^%d mod %d = %s, expected %d", b, y, m, dumpInt(got), want), map[string]any{"x": b, "y": y, "m": m})
+					x.fail("ModPow", fmt.Sprintf("%d^%d mod %d = %s, expected %d", bb, y, m, dumpInt(got), want), map[string]any{"x": bb, "y": y, "m": m})
 					return
 				}
 			}
 		}
 		r.Distinct("ModPow", m)
+	}
+	// large operands, all sign combinations (reference: math/big on the reduced base)
+	rng := r.Rand("modpow-large")
+	for i := 0; i < r.Pick(400, 4000); i++ {
+		m := randBig(rng, 16+rng.IntN(1200))
+		if m.Cmp(bi(2)) < 0 {
+			continue
+		}
+		bx := randBig(rng, 1+rng.IntN(1400))
+		if i%2 == 1 {
+			bx.Neg(bx)
+		}
+		y := randBig(rng, 1+rng.IntN(300))
+		if i%4 >= 2 {
+			y.Neg(y)
+		}
+		got, err := verifhooks.ModPow(cp(bx), cp(y), cp(m))
+		n++
+		b := new(big.Int).Mod(bx, m)
+		var want *big.Int
+		if y.Sign() < 0 {
+			inv := new(big.Int).ModInverse(b, m)
+			if inv == nil {
+				if err == nil {
+					x.fail("ModPow", "no inverse exists but a value was returned (large operands)", map[string]any{"x": dumpInt(bx), "y": dumpInt(y), "m": dumpInt(m)})
+					return
+				}
+				continue
+			}
+			want = new(big.Int).Exp(inv, new(big.Int).Neg(y), m)
+		} else {
+			want = new(big.Int).Exp(b, y, m)
+		}
+		if err != nil || got == nil || got.Cmp(want) != 0 {
+			x.fail("ModPow", fmt.Sprintf("large operands (base sign %d, exponent sign %d): got %s (err=%v), expected %s", bx.Sign(), y.Sign(), dumpInt(got), err, dumpInt(want)), map[string]any{"x": dumpInt(bx), "y": dumpInt(y), "m": dumpInt(m)})
+			return
+		}
+		r.Distinct("ModPow-large", i)
 	}
 	x.count("ModPow", n/1000+1)
 	r.Add("evaluations_ModPow", n)
